@@ -32,6 +32,7 @@ CONSTANTS N,              \* number of participants (ids 1..N)
 P == 1 .. N
 \* fault kinds on a contribution: [consistent, dlen]  (dlen = vector length minus threshold)
 ContribFaults == { [name |-> "share-replaced",     consistent |-> FALSE, dlen |-> 0],
+                   [name |-> "share-swapped",      consistent |-> FALSE, dlen |-> 0],    \* the sender's GENUINE share - computed for another participant
                    [name |-> "vvec-alter",         consistent |-> FALSE, dlen |-> 0],
                    [name |-> "vvec-short",         consistent |-> FALSE, dlen |-> -1],
                    [name |-> "vvec-empty",         consistent |-> FALSE, dlen |-> -2],   \* no commitments at all
